@@ -33,6 +33,7 @@ from collections.abc import Sequence  # noqa: E402
 from wpimath.geometry import Translation2d  # noqa: E402
 from magicbot import MagicRobot, StateMachine, feedback, will_reset_to  # noqa: E402
 from magicbot import default_state as sm_default_state, state as sm_state  # noqa: E402
+from magicbot.magiccomponent import MagicComponent  # noqa: E402
 
 DS = wpilib.simulation.DriverStationSim
 logging.disable(logging.CRITICAL)
@@ -44,7 +45,23 @@ NOTINT = -998
 SPECIAL = {1000: False, 1001: True, 1002: 1.0, 1003: -0.0, 1004: 0.0, 1005: 5.0}
 
 
+class _Sentinel:
+    """a default that is meant to be recognised by identity ("if self.request is not NO_REQUEST")"""
+
+    def __deepcopy__(self, memo):
+        return _Sentinel()
+
+
+NO_REQUEST = _Sentinel()
+
+
+
+
 def code_of(v):
+    if v is NO_REQUEST:
+        return 5
+    if isinstance(v, _Sentinel):
+        return NOTINT           # a copy of the sentinel is not the sentinel
     if type(v) is int:
         return v
     if type(v) is bool:
@@ -197,7 +214,7 @@ def make_component(c, layout, variant):
     for a, d in resets.items():
         mk_ = markers.get(d) if layout.get("sharedmarker", {}).get(c) else None
         if mk_ is None:
-            mk_ = markers[d] = will_reset_to(d)
+            mk_ = markers[d] = will_reset_to(NO_REQUEST if d == 5 and variant % 3 == 2 else d)
         (base_ns if a in inherited else ns)[a] = mk_
         if a in redeclared and a not in inherited:
             base_ns[a] = will_reset_to(d + 100)
@@ -216,6 +233,9 @@ def make_component(c, layout, variant):
     ns["__init__"] = __init__
 
     is_sm = c in layout.get("sm", [])
+    via_magic = (not is_sm) and variant % 3 == 1
+    if via_magic:
+        base_ns.setdefault("__doc__", "intermediate base of a MagicComponent-derived component")
     if is_sm:
         # a magicbot.StateMachine as a component: never engaged, so its default state is what execute() runs
         def go(self):
@@ -251,7 +271,8 @@ def make_component(c, layout, variant):
                 if is_sm and k != "setup":
                     getattr(StateMachine, k)(self)
             f.__name__ = k
-            ns[k] = f
+            # (a component may derive from magicbot.MagicComponent and inherit its hooks from a class in between)
+            (base_ns if via_magic else ns)[k] = f
     if attr_hooks:
         import functools
         init0 = ns["__init__"]
@@ -263,9 +284,15 @@ def make_component(c, layout, variant):
         ns["__init__"] = __init__
     for g in layout["feedbacks"]:
         if g["o"] == c:
+            shared = set(layout.get("sameclass", {})) | set(layout.get("sameclass", {}).values()) \
+                | set(layout.get("derive", {})) | set(layout.get("derive", {}).values())
             add_getter(ns, c, g["key"], variant, g.get("ty", "int"), g.get("sann", False), g.get("inplace", False),
-                       base_ns if g.get("ovr") else None)
-    root = StateMachine if is_sm else object
+                       base_ns if g.get("ovr") else None, cm_ok=c not in shared)
+    if layout.get("valueeq", {}).get(c):
+        # components that compare equal whenever they are of the same class (dataclass-like): still two components
+        ns["__eq__"] = lambda a, b: type(a) is type(b)
+        ns["__hash__"] = lambda a: 7
+    root = StateMachine if is_sm else MagicComponent if via_magic else object
     bases = (root,)
     if base_ns:
         bases = (type("Base_" + c, (root,), base_ns),)
@@ -288,7 +315,7 @@ FB_ANN_STR = {"int": "int", "float": "float", "bool": "bool", "str": "str", "str
               "float[]": "tuple[float, ...]", "bool[]": "tuple[bool, ...]", "str[]": "Sequence[str]", "struct[]": "list[T2]"}
 
 
-def add_getter(ns, o, key, variant, ty="int", sann=False, inplace=False, base_ns=None):
+def add_getter(ns, o, key, variant, ty="int", sann=False, inplace=False, base_ns=None, cm_ok=False):
     box = []         # inplace: the getter hands out ONE list object, updated in place by the component
 
     def getter(self):
@@ -313,7 +340,9 @@ def add_getter(ns, o, key, variant, ty="int", sann=False, inplace=False, base_ns
     if variant % 2 == 0:
         # (a getter made by a factory keeps the factory's function name; the key comes from the attribute it is bound to)
         getter.__name__ = "get_" + key if (variant // 2) % 3 != 1 else "made_by_factory"
-        ns["get_" + key] = feedback(getter)
+        # (... and a getter may be a class method)
+        ns["get_" + key] = classmethod(feedback(getter)) if variant % 5 == 4 and cm_ok and base_ns is None \
+            else feedback(getter)
     else:
         # (with an explicit key the method's own name is free: it may be a private one)
         getter.__name__ = ("_read_" if variant % 4 == 3 else "read_") + key
@@ -399,6 +428,13 @@ def make_robot(layout, uid):
         if name == "robotPeriodic" and not layout.get("rp", True):
             continue        # the default robotPeriodic() stays: it updates the dashboard values (chooser selection)
         base_ns[name] = mk(name)
+    if layout.get("tp_partial"):
+        # a hook need not be a plain function: functools.partialmethod gives a callable without __name__
+        import functools
+
+        def _tp(self, tag):
+            HOOK("teleopPeriodic", "robot")
+        base_ns["teleopPeriodic"] = functools.partialmethod(_tp, "tp")
     for g in layout["feedbacks"]:
         if g["o"] == "robot":
             add_getter(base_ns, "robot", g["key"], uid, g.get("ty", "int"), g.get("sann", False))
@@ -529,7 +565,7 @@ class RandomPolicy:
                 if dflt is not None and rng.random() < 0.3:
                     v = rng.choice({0: [1000, 1003, 1004], 1: [1001, 1002], 5: [1005]}.get(dflt, [v]))
                 d["w"].append({"c": c, "a": a, "v": v})
-        if self.overrun and k in ("teleopPeriodic", "execute", "robotPeriodic") and rng.random() < 0.15:
+        if self.overrun and k in ("teleopPeriodic", "execute", "robotPeriodic", "feedback") and rng.random() < 0.15:
             P = self.layout["period"]
             d["adv"] = rng.choice([P // 2, P, P + 1000, 3 * P + 7])
         if k == "feedback":
@@ -725,6 +761,7 @@ def gen_layout(rng, uid):
             "initassign": initassign, "derive": derive, "derive_redecl": derive_redecl,
             "rp": rng.random() < 0.7, "onexc": rng.random() < 0.3, "eri": rng.choice([0.5, 0.5, 0, 0.001, 3]),
             "sharedmarker": {c: rng.random() < 0.3 for c in comps},
+            "valueeq": {c: rng.random() < 0.5 for c in comps}, "tp_partial": rng.random() < 0.25,
             "hookform": {c: {k: rng.choice(["method", "method", "static", "class", "attr"])
                              for k in ("setup", "on_enable", "on_disable")}
                          for c in comps if c not in sameclass and c not in sameclass.values()
